@@ -102,7 +102,7 @@ def applyOutcome (root : Fs.Root) (dirs files : List Fs.Path) (b : Bytes) : Stri
   | .fault f => ("fault:" ++ f.name ++ over, [])
 
 /-- one case line in, one answer line out (see `Base/Proto.lean`) -/
-def handle (line : String) : String :=
+def handle1 (line : String) : String :=
   match fields line with
   | [op, h] =>
     match Bytes.ofHexFast h with
@@ -156,5 +156,19 @@ def handle (line : String) : String :=
       | .fault f => answer "=" ("fault:" ++ f.name)
     | _, _ => bad
   | _ => bad
+
+/-- `leak <n> <case>`: the case repeated `5·n + 1` times in one process (`harness/src/c17_leak.rs`).
+The specified answer is the case's own — every call is a function of its input alone and leaves
+nothing behind: neither heap (the models log every request of a call and hold no state between
+calls; `c17_*_alloc`), nor inflate state, nor descriptors. -/
+def handle (line : String) : String :=
+  match fields line with
+  | "leak" :: n :: rest =>
+    match n.toNat? with
+    | some k =>
+      if k = 0 ∨ k > 10000 ∨ rest.isEmpty ∨ rest.head? == some "leak" then bad
+      else handle1 (" ".intercalate rest)
+    | none => bad
+  | _ => handle1 line
 
 end Physis.Driver.C17
